@@ -70,6 +70,46 @@ def case_crosshair(**p):
   return case
 
 
+def _determinism():
+  """same seed -> same arrangement, on the real objects (executed twice per configuration)"""
+  import copy
+  import tensorflow as tf
+  import tensorflow_lattice as tfl
+  from tensorflow_lattice.python import premade_lib
+  bad = []
+  n = 0
+  for seed in (0, 1, 7, 12345):
+    for (nl, rank, shapes) in ((3, 2, {'unconstrained': (None, 2), 'increasing': (None, 3)}), (4, 3, {'increasing': [(None, 2), (None, 2)], 'unconstrained': [(None, 3)]}),
+                               (2, 2, (None, 4))):
+      st = []
+      for _ in range(2):
+        layer = tfl.layers.RTL(num_lattices=nl, lattice_rank=rank, random_seed=seed)
+        st.append(layer._get_rtl_structure(shapes))
+      n += 1
+      if st[0] != st[1]:
+        bad.append(('rtl', seed, nl, rank))
+    for (nf, nl, rank) in ((4, 3, 2), (5, 4, 3)):
+      lat = []
+      for _ in range(2):
+        cfg = tfl.configs.CalibratedLatticeEnsembleConfig(
+            feature_configs=[tfl.configs.FeatureConfig(name='f%d' % i) for i in range(nf)], lattices='random', num_lattices=nl, lattice_rank=rank,
+            random_seed=seed)
+        premade_lib.set_random_lattice_ensemble(cfg)
+        lat.append(copy.deepcopy(cfg.lattices))
+      n += 1
+      if lat[0] != lat[1]:
+        bad.append(('random', seed, nf, nl, rank))
+  return n, bad
+
+
+def case_determinism(**p):
+  case = Case(PROP, p['name'], {})
+  n, bad = _determinism()
+  case.record('arrangement-is-a-function-of-the-seed', 'sat' if bad else 'unsat', kind='structural', witness={}, replay=dict(fn='determinism'),
+              sig=dict(query='determinism'), note='%d configurations built twice; differing: %s' % (n, bad[:3]))
+  return case
+
+
 def case_crystals(**p):
   from vf.e3 import crystals
   return crystals.case(PROP, p)
@@ -77,6 +117,9 @@ def case_crystals(**p):
 
 def replay(r):
   rp = r['replay']
+  if rp['fn'] == 'determinism':
+    n, bad = _determinism()
+    return dict(reproduced=bool(bad), detail=dict(configurations=n, differing=bad[:5]))
   if rp['fn'] == 'crystals':
     from vf.e3 import crystals
     return crystals.replay(r)
@@ -104,6 +147,7 @@ def cases(tier, seed):
                     cap=900, required=not hard))
   for f in h.TWINS:
     out.append(dict(name=f, fn='case_crosshair', params=dict(name=f, func=f, timeout=60, twin=True), cap=400))
+  out.append(dict(name='determinism', fn='case_determinism', params=dict(name='determinism'), cap=600))
   if tier == 'thorough':
     for f in h.CHECKS_THOROUGH:
       out.append(dict(name=f, fn='case_crosshair', params=dict(name=f, func=f, timeout=900, required=False), cap=3600, required=False))
